@@ -5,7 +5,7 @@
    centres are distinct frames; every label is in [0,k); every distance is the metric distance to
    the assigned centre; no centre is strictly closer; every centre frame has its own label at 0. *)
 From Coq Require Import List ZArith QArith.
-From EV Require Import Cluster ClusterCase ClusterBase ClusterInv ClusterPam ClusterKC ClusterTop ClusterExample Partition ClusterWarm KcGuardBase ClusterGen ClusterSkel ClusterGenProofs.
+From EV Require Import Cluster ClusterCase ClusterBase ClusterInv ClusterPam ClusterKC ClusterTop ClusterExample Partition ClusterWarm KcGuardBase ClusterGen ClusterSkel ClusterGenProofs ClusterNonEmpty.
 Import ListNotations.
 
 (* the invariant spelt out in the words of the property *)
@@ -94,6 +94,24 @@ Theorem c01_checked_matrix_is_valid : forall m n, valid_matrix m n = true ->
   (forall f, Dext m n f f == 0) /\ (forall c f, c <> f -> 0 < Dext m n c f).
 Proof. exact valid_matrix_sound. Qed.
 Print Assumptions c01_checked_matrix_is_valid.
+
+(* ---- read off a consistent result: no cluster is empty (label j is carried by centre j, at
+   distance zero), different clusters have different centre frames, and k <= n.  Together with the
+   entry-point theorems above this holds for every k-centers / k-medoids / k-hybrid result. *)
+Theorem c01_no_empty_cluster : forall D n s, Inv D n s -> forall j, (j < length (fst s))%nat ->
+  exists f, (f < n)%nat /\ f = ctr (fst s) j /\ lab (nth f (snd s) (mkfr 0 0 0)) = j /\
+            dist (nth f (snd s) (mkfr 0 0 0)) == 0.
+Proof. exact every_label_used. Qed.
+Print Assumptions c01_no_empty_cluster.
+
+Theorem c01_centres_pairwise_distinct : forall D n s, Inv D n s ->
+  forall i j, (i < length (fst s))%nat -> (j < length (fst s))%nat -> ctr (fst s) i = ctr (fst s) j -> i = j.
+Proof. exact centres_distinct. Qed.
+Print Assumptions c01_centres_pairwise_distinct.
+
+Theorem c01_no_more_clusters_than_frames : forall D n s, Inv D n s -> (length (fst s) <= n)%nat.
+Proof. exact k_le_n. Qed.
+Print Assumptions c01_no_more_clusters_than_frames.
 
 Example c01_example :
   Inv (Dline pos_id) 6 (kcenters_cold (Dline pos_id) (Some 3%nat) 0 true 6) /\
